@@ -94,10 +94,14 @@ Section Generic.
     let x1 := if sltb x s0 then s0 else x in
     if sltb s1 x1 then s1 else x1.
 
-  (** ** [SpatialTrackDistances::relative_distance] *)
+  (** ** [SpatialTrackDistances::relative_distance]: an empty or inverted range has no slope
+      (full volume closer than the max distance, silent from there on); otherwise clamp and
+      map affinely to [0,1] *)
   Definition relative_distance (dmin dmax d : F) : outcome F :=
-    let! dc := clamp_chk d dmin dmax in
-    Ok ((dc - dmin) / (dmax - dmin)).
+    if sleb dmax dmin then Ok (if sleb dmax d then s1 else s0)
+    else
+      let! dc := clamp_chk d dmin dmax in
+      Ok ((dc - dmin) / (dmax - dmin)).
 
   (** ** [Decibels::as_amplitude]; [powf10 x] stands for [10.0f32.powf(x)] *)
   Variable powf10 : F -> F.
